@@ -111,6 +111,8 @@ func SimC04(c *CheckCtx, i int, r *Rng) error {
 	sc.Variants = append(sc.Variants,
 		Variant{Name: "base:asc", Ops: []Op{{Kind: "run", Run: mkRun(asc, args.Entrypoint, true)}}},
 		Variant{Name: "control:asc", Ops: []Op{{Kind: "run", Run: mkRun(asc, args.Entrypoint, true)}}},
+		Variant{Name: "control:gomaxprocs1", Ops: []Op{{Kind: "run", Run: withProcs(mkRun(asc, args.Entrypoint, true), 1)}}},
+		Variant{Name: "control:gomaxprocs3", Ops: []Op{{Kind: "run", Run: withProcs(mkRun(asc, args.Entrypoint, true), 3)}}},
 		Variant{Name: "sched:desc", Ops: []Op{{Kind: "run", Run: mkRun(simrt.Schedule{Default: "desc"}, args.Entrypoint, true)}}},
 	)
 	nShuf := 2
@@ -179,6 +181,11 @@ func SimC04(c *CheckCtx, i int, r *Rng) error {
 	c.Env.Stats.Sample(map[string]any{"sim": i, "module": m.ModPath, "go": m.GoVer, "packages": len(m.Pkgs), "generators": names, "entrypoints": args.Entrypoint, "all": args.All,
 		"variants": variantNames(sc)}, 3)
 	return nil
+}
+
+func withProcs(r *RunOp, n int) *RunOp {
+	r.GoMaxProcs = n
+	return r
 }
 
 func fmtNames(n []string) string { return fmt.Sprint(n) }
